@@ -31,6 +31,17 @@ ResolveT(gs, n, t) ==
 
 Resolve(gs, n) == ResolveT(gs, n, Ident)
 
+\* decomposition WITHOUT direction compensation: what fontTools' TTGlyphPointPen does when it has to
+\* decompose a composite whose 2x2 overflows F2Dot14 (the rasteriser would not reverse either)
+RECURSIVE ResolveNoRevT(_, _, _)
+ResolveNoRevT(gs, n, t) ==
+  IF n \notin DOMAIN gs THEN <<>>
+  ELSE LET g == gs[n] IN
+       [k \in 1..Len(g.cs) |-> [j \in 1..Len(g.cs[k]) |-> AppPt(t, g.cs[k][j])]]
+       \o FlattenSeq([k \in 1..Len(g.comps) |->
+                        ResolveNoRevT(gs, g.comps[k].b, Compose(t, Tr(g.comps[k])))])
+ResolveNoRev(gs, n) == ResolveNoRevT(gs, n, Ident)
+
 \* util.getMaxComponentDepth (acyclic inputs)
 RECURSIVE Depth(_, _)
 Depth(gs, n) ==
